@@ -46,6 +46,7 @@ theorem feed_run {P : APlan} {c c' : Ctl} {l : List AEv} {o : AEv} (h : Run P c 
     split
     · exact tryStep_run (tryStep_run h _) _
     · exact h
+  · exact visStep_run h hf
   · split at hf
     · rename_i c'' hv
       cases hf
@@ -118,6 +119,9 @@ theorem step_ret_cases {P : APlan} {c c' : Ctl} {lb : Lbl} {op : AOp} {v : Bool}
   | send =>
     cases job <;> simp only [step] at hs <;> try (cases hs)
     split at hs <;> cases hs
+  | observe =>
+    cases caller <;> simp only [step] at hs <;> try (cases hs)
+    split at hs <;> cases hs
 
 theorem step_sys_cases {P : APlan} {c c' : Ctl} {lb : Lbl} {th : Th} {d : Nat} {e : Ev Nat}
     (hs : step P c lb = some (c', some (.sys th d e))) :
@@ -154,6 +158,9 @@ theorem step_sys_cases {P : APlan} {c c' : Ctl} {lb : Lbl} {th : Th} {d : Nat} {
     · cases hs
   | send =>
     cases job <;> simp only [step] at hs <;> try (cases hs)
+    split at hs <;> cases hs
+  | observe =>
+    cases caller <;> simp only [step] at hs <;> try (cases hs)
     split at hs <;> cases hs
 
 theorem step_tl_cases {P : APlan} {c c' : Ctl} {lb : Lbl} {th : Th} {e : Ev Nat}
@@ -192,6 +199,53 @@ theorem step_tl_cases {P : APlan} {c c' : Ctl} {lb : Lbl} {th : Th} {e : Ev Nat}
   | send =>
     cases job <;> simp only [step] at hs <;> try (cases hs)
     split at hs <;> cases hs
+  | observe =>
+    cases caller <;> simp only [step] at hs <;> try (cases hs)
+    split at hs <;> cases hs
+
+/-- a `quiet` event is emitted by `observe` only: between two operations, with no system of
+the job inside `run` or still to be started; the control state is left alone -/
+theorem step_quiet_cases {P : APlan} {c c' : Ctl} {lb : Lbl}
+    (hs : step P c lb = some (c', some .quiet)) :
+    c.caller = .ready ∧ c.job.quiet = true ∧ c' = c := by
+  obtain ⟨data, job, caller, n⟩ := c
+  cases lb with
+  | call op' => cases caller <;> simp [step] at hs
+  | acquire =>
+    cases caller <;> simp only [step] at hs <;> try (cases hs)
+    split at hs
+    · cases hs
+    · split at hs <;> cases hs
+  | poll =>
+    cases caller <;> simp only [step] at hs <;> try (cases hs)
+    rename_i op'
+    cases op' <;> simp only at hs <;> try (cases hs)
+    cases data <;> cases job <;> simp only at hs <;> cases hs
+  | spawn =>
+    cases caller <;> simp only [step] at hs <;> try (cases hs)
+    rename_i op'
+    cases op' <;> simp only at hs <;> cases hs
+  | ret =>
+    cases caller <;> simp only [step] at hs <;> try (cases hs)
+    · rename_i op'
+      cases op' <;> simp only at hs <;> cases hs
+    · split at hs <;> cases hs
+  | tlEv e =>
+    cases caller <;> simp only [step] at hs <;> try (cases hs)
+    split at hs <;> cases hs
+  | jobEv e =>
+    cases job <;> simp only [step] at hs <;> try (cases hs)
+    split at hs <;> cases hs
+  | send =>
+    cases job <;> simp only [step] at hs <;> try (cases hs)
+    split at hs <;> cases hs
+  | observe =>
+    cases caller <;> simp only [step] at hs <;> try (cases hs)
+    split at hs
+    · rename_i hq
+      cases hs
+      exact ⟨rfl, hq, rfl⟩
+    · cases hs
 
 /-! ### quiescence -/
 
@@ -209,6 +263,23 @@ theorem inv_quiescent {P : APlan} {c : Ctl} {l : List AEv} (hi : Inv P c l) (hd 
   · have : d = n - 1 := by omega
     subst this
     exact hcur (by omega)
+
+/-- the same with `Data::Rx`, provided the job has nothing left but its `send` -/
+theorem inv_quiescent_quiet {P : APlan} {c : Ctl} {l : List AEv} (hi : Inv P c l) (hq : c.job.quiet = true) :
+    Quiescent P l c.nDisp := by
+  obtain ⟨data, job, caller, n⟩ := c
+  obtain ⟨hdj, hbey, hear, hcur, _, _, _⟩ := hi
+  simp only at hq hdj hbey hear hcur
+  refine ⟨fun d h => ?_, hbey⟩
+  have h : d < n := h
+  by_cases h' : d + 1 < n
+  · exact hear d h'
+  · have : d = n - 1 := by omega
+    subst this
+    cases job with
+    | running r => exact traces_of_derivs hcur.2 hq
+    | idle => exact hcur (by omega)
+    | sent => exact hcur (by omega)
 
 theorem quiescent_none_open {P : APlan} {l : List AEv} {k : Nat} (h : Quiescent P l k) (d x : Nat) :
     ¬ OpenAt l d x := by
@@ -266,6 +337,14 @@ theorem pending_some_aux (l : List AEv) : ∀ (p : Option AOp) (op : AOp), pendi
         · rfl
         · exact h2 x hx
       · right; exact ⟨AEv.tl th e :: l0, l0', by simp [h1], h2⟩
+    | quiet =>
+      simp only [pending] at h
+      rcases ih _ _ h with ⟨h1, h2⟩ | ⟨l0, l0', h1, h2⟩
+      · left; refine ⟨h1, fun x hx => ?_⟩
+        rcases List.mem_cons.mp hx with rfl | hx
+        · rfl
+        · exact h2 x hx
+      · right; exact ⟨AEv.quiet :: l0, l0', by simp [h1], h2⟩
 
 theorem pending_some {l : List AEv} {op : AOp} (h : pending l none = some op) :
     ∃ l0 l0', l = l0 ++ .call op :: l0' ∧ ∀ x, x ∈ l0' → x.isCallRet = false := by
